@@ -517,6 +517,18 @@ def bounded_printing(ctx, b):
                 ok = back == Size(round(v, 2), unit) and str(back) == printed
                 return ok, None if ok else {"value": v, "printed": printed, "reparsed": repr(back)}
             b.guard((v, unit.value), one, sample={"value": v, "unit": unit.value})
+    # a size that was PARSED prints like the equal size that was constructed, whatever spelling it was parsed from
+    # (1.239px, 10.000%, 007pt, 1.50em ...): what is printed is a matter of the value and the unit
+    units = {"px": UnitEnum.PIXEL, "em": UnitEnum.EM, "%": UnitEnum.PERCENT, "c": UnitEnum.CELL, "pt": UnitEnum.PT}
+    for num in ["1.239", "10.000", "1.50", "007", "0.004", "0.005", "12", "12.0", "12.10", "3.14159", "100.999", "000.5", "9.995", "33.3333"]:
+        for suffix, unit in units.items():
+            def parsed(num=num, suffix=suffix, unit=unit):
+                got = Size.from_string(num + suffix)
+                same = Size(float(num), unit)
+                ok = str(got) == str(same) == ref_print(float(num), unit) and got.to_xml_attribute() == same.to_xml_attribute() \
+                    and got == same and hash(got) == hash(same) and str(Size.from_string(str(got))) == str(got)
+                return ok, {"parsed_from": num + suffix, "printed": str(got), "constructed_prints": str(same)}
+            b.guard(("parsed", num, suffix), parsed, sample={"parsed_from": num + suffix})
     # composite to_xml_attribute
     for _ in range(50):
         a, bb, cc, d = (Size(rng.choice(vals), UnitEnum.PERCENT) for _ in range(4))
